@@ -21,6 +21,7 @@ type Agg struct {
 	P     float64 `json:"p,omitempty"`
 	Nth   int     `json:"nth,omitempty"`
 	Spell int     `json:"spell,omitempty"` // how the function name is written: 0 lower case, 1 UPPER CASE, 2 Initial capital
+	Flag  int     `json:"flag,omitempty"`  // deduplicate: 0 = deduplicate(x), 1 = deduplicate(x, true), 2 = deduplicate(x, false) (the guide's spelling)
 	// NoAlias: written without AS; the output name is then the engine's convention, and the value is found as the one
 	// column that is neither a key, ids, window metadata nor an alias (at most one such aggregate per query)
 	NoAlias bool `json:"no_alias,omitempty"`
@@ -78,6 +79,9 @@ func genCase(t *rapid.T) Case {
 		}
 		if a.Fn == "nth_value" {
 			a.Nth = rapid.IntRange(1, 4).Draw(t, "nth")
+		}
+		if a.Fn == "deduplicate" {
+			a.Flag = rapid.IntRange(0, 2).Draw(t, "dedupflag")
 		}
 		if x := rapid.IntRange(0, 5).Draw(t, "spell"); x >= 4 {
 			a.Spell = x - 3 // function names are case-insensitive
@@ -163,6 +167,10 @@ func (a Agg) sql(alias string) string {
 		return fmt.Sprintf("%s(%s, %s)%s", a.name(), a.Arg, strconv.FormatFloat(a.P, 'f', -1, 64), as)
 	case "nth_value":
 		return fmt.Sprintf("%s(%s, %d)%s", a.name(), a.Arg, a.Nth, as)
+	case "deduplicate":
+		if a.Flag > 0 {
+			return fmt.Sprintf("%s(%s, %t)%s", a.name(), a.Arg, a.Flag == 1, as)
+		}
 	}
 	return fmt.Sprintf("%s(%s)%s", a.name(), a.Arg, as)
 }
@@ -730,7 +738,7 @@ func features(c Case) []string {
 
 var spec = pbt.Spec[Case]{
 	ID:          "C03",
-	Rule:        "generated: CountingWindow(N), N 1..8, optional group column, 1-4 consecutive batches per key through one instance; values int/float64 (negative, zero, repeats, large), NULL, missing; argument shapes v, d.v, v + w, v * 2, v - 1, v * 0.5, v * 1.5, d.v * 2 and the literal 1 (drawn per aggregate, so one query mixes them); function names in lower, upper or initial-capital spelling; one aggregate of one query in six written without AS; SELECT list = random subset of count(*), count, sum, avg, min, max, stddev, stddevs, var, vars, median, percentile(p), first_value, last_value, nth_value, collect, deduplicate, merge_agg. oracle: reference definitions on exactly the batch's rows (NULL/missing skipped, empty input -> NULL for sum/avg/min/max, population vs sample formulas, percentile accepted between the neighbouring order statistics), plus a twin instance fed each batch permuted (order-insensitive aggregates must agree). non-trivial = a batch with a NULL/missing value and >= 2 distinct numbers, or >= 2 batches; distinct by case hash",
+	Rule:        "generated: CountingWindow(N), N 1..8, optional group column, 1-4 consecutive batches per key through one instance; values int/float64 (negative, zero, repeats, large), NULL, missing; argument shapes v, d.v, v + w, v * 2, v - 1, v * 0.5, v * 1.5, d.v * 2 and the literal 1 (drawn per aggregate, so one query mixes them); function names in lower, upper or initial-capital spelling; one aggregate of one query in six written without AS; SELECT list = random subset of count(*), count, sum, avg, min, max, stddev, stddevs, var, vars, median, percentile(p), first_value, last_value, nth_value, collect, deduplicate (also in the guide's two-argument spelling deduplicate(x, true|false)), merge_agg. oracle: reference definitions on exactly the batch's rows (NULL/missing skipped, empty input -> NULL for sum/avg/min/max, population vs sample formulas, percentile accepted between the neighbouring order statistics), plus a twin instance fed each batch permuted (order-insensitive aggregates must agree). non-trivial = a batch with a NULL/missing value and >= 2 distinct numbers, or >= 2 batches; distinct by case hash",
 	Assumptions: []string{"stddev/var/median/percentile over no usable input: NULL, 0 or NaN accepted (not fixed by the guide)", "first_value/last_value: a missing field may be reported as NULL or skipped; an explicit NULL is reported", "nth_value: n-th row or n-th usable value accepted"},
 	Gen:         genCase,
 	Run:         runCase,
